@@ -128,6 +128,9 @@ pub struct Rewriter<'a> {
     pub world: bool,
     pub collect_type: Option<String>,
     pub drop_takes: bool,
+    pub drop_fn: String,
+    /// crate-local async fns: `f(args).await` is the sequential call `f(args, Tracked(w))`
+    pub async_fns: Vec<String>,
     /// R15: method name -> kinds ("poll" | "option") for successive occurrences (pre-order)
     pub desugar: HashMap<String, Vec<String>>,
     pub desugar_seen: HashMap<String, usize>,
@@ -372,6 +375,17 @@ impl<'a> VisitMut for Rewriter<'a> {
                     _ => None,
                 }
             }
+            Expr::Await(a) if matches!(&*a.base, Expr::Call(c) if matches!(&*c.func, Expr::Path(p) if p.path.get_ident().map(|i| self.async_fns.contains(&i.to_string())).unwrap_or(false))) => {
+                // `f(args).await` for a crate-local async fn: its body runs here (sequential call, world threaded)
+                if let Expr::Call(c) = &*a.base {
+                    let f = &c.func;
+                    let args = c.args.iter();
+                    self.fired.push("R6-await-local-async-fn".into());
+                    Some(parse_quote! { #f(#(#args),*, Tracked(w)) })
+                } else {
+                    None
+                }
+            }
             Expr::Await(a) => {
                 let inner = &a.base;
                 self.fired.push("R6-await".into());
@@ -451,10 +465,11 @@ impl<'a> VisitMut for Rewriter<'a> {
                         let f = &c.func;
                         let args = c.args.iter();
                         self.fired.push(format!("R6-user-call-{}", n));
+                        let nm = if c.args.len() == 1 { id("vx_user_call1") } else { id("vx_user_call") };
                         let new: Expr = if self.world {
-                            parse_quote! { vx_user_call(#f, #(#args),*, Tracked(w)) }
+                            parse_quote! { #nm(&#f, #(#args),*, Tracked(w)) }
                         } else {
-                            parse_quote! { vx_user_call(#f, #(#args),*) }
+                            parse_quote! { #nm(&#f, #(#args),*) }
                         };
                         *e = new;
                     }
@@ -470,7 +485,8 @@ impl<'a> VisitMut for Rewriter<'a> {
             if let Stmt::Expr(Expr::MethodCall(m), Some(_)) = st {
                 if m.method == "take" && m.args.is_empty() {
                     let e = Expr::MethodCall(m.clone());
-                    *st = parse_quote! { vx_drop_sender_opt(#e, Tracked(w)); };
+                    let df = id(&self.drop_fn);
+                    *st = parse_quote! { #df(#e, Tracked(w)); };
                     self.fired.push("R6-drop-taken-sender".into());
                 }
             }
@@ -536,6 +552,8 @@ pub fn apply_all(block: &mut Block, item: &Value, fired: &mut Vec<String>, name:
         world: item.get("world").and_then(|x| x.as_bool()).unwrap_or(false),
         collect_type: item.get("collect_type").and_then(|x| x.as_str()).map(String::from),
         drop_takes: item.get("drop_takes").and_then(|x| x.as_bool()).unwrap_or(false),
+        drop_fn: item.get("drop_fn").and_then(|x| x.as_str()).unwrap_or("vx_drop_sender_opt").to_string(),
+        async_fns: list("async_fns"),
         desugar: item
             .get("desugar")
             .and_then(|x| x.as_object())
